@@ -32,16 +32,16 @@ def run(ctx):
     ctx.rule('C06.R10', 'every successful non-dry-run exit of run_bisync passes Archive::save', floor=1)
     bs = Bisync(ctx, F, 'C06.R4')
     ctx.rule('C06.R11', 'the plan applied is exactly the value reconcile() returned (no filtering between decision and apply)', floor=1)
-    bs.every_success_records(ctx, 'C06.R10')
-    bs.plan_is_reconcile_result(ctx, 'C06.R11')
-    r1(ctx, F, bs)
+    ctx.attempt(bs.every_success_records, ctx, 'C06.R10')
+    ctx.attempt(bs.plan_is_reconcile_result, ctx, 'C06.R11')
+    ctx.attempt(r1, ctx, F, bs)
     from rules import C02
     # R2: reuse the winner tuple rule under this id
     sub = _Alias(ctx, 'C02.R4', 'C06.R2', only='apply:BothChanged:winner-tuple')
     C02.side_rules(sub, bs, bs.copy_sites(), direction=True)
-    r3(ctx, F, bs)
-    r4(ctx, F, bs)
-    r5(ctx, F, bs)
+    ctx.attempt(r3, ctx, F, bs)
+    ctx.attempt(r4, ctx, F, bs)
+    ctx.attempt(r5, ctx, F, bs)
     sub = _Alias(ctx, 'C02.R5', 'C06.R6')
     C02.archive_taint(sub, bs)
     from rules import C18
@@ -59,8 +59,8 @@ def run(ctx):
             ctx.check(ok, 'C06.R7', C18.vdesc(v), '%s / mirrored %s' % (r_, r2),
                       'decision at %s is %s (table: %s; mirrored: %s): outcome would depend on which directory is named first' % (C18.vdesc(v), r_, C18.oracle(v), r2),
                       'src/bin/copia/reconcile.rs (reconcile::reconcile_path)')
-    r8(ctx, F)
-    r9(ctx, F, bs)
+    ctx.attempt(r8, ctx, F)
+    ctx.attempt(r9, ctx, F, bs)
 
 
 class _Alias:
